@@ -1,5 +1,118 @@
-(* TimerIO.v — stub: replaced by the real decoder/runner when the property is built. *)
-From Coq Require Import List.
-From M Require Import Sx.
+(* TimerIO.v — decoding of generated cases and encoding of observations for the timeout model
+   (dispatch kind 9).
+   request := [0; async; queued; states; transitions; ignore; onexc; nmodels; init; history]     run the model
+            | [1; states; nmodels; init; items; clock]                 evaluate spec_C17 on an observed trace
+     states      : list of [id; timeout; given; on_timeout; enter; exit]
+                   on_timeout : list of [id; act; raises], act = [] | [[who; event]], who = [] | [model]
+     transitions : list of [event; src; dst option; condition outcome]
+     history     : list of [0; model; event] | [1; dt]
+   answer  := [1; [1; 1]]                          construction raised AttributeError
+            | [1; [0; steps; verdict]]             steps of the run, spec_C17 on the model's own trace
+            | [1; [2; verdict]]                    answer to request 1
+     step : [items; [] or [result]; state of every model; clock]
+     item : [kind; ...] with kinds 0 TExited 1 TEntered 2 TFired 3 CExit 4 CEnter 5 CTimeout 6 COnExc
+            7 CEscape 8 CRes 9 TUser;  result : 0 False 1 True 2 MachineError 3 AttributeError *)
+From Coq Require Import List Arith Bool.
+From M Require Import Sx Timer TimerSpec.
 Import ListNotations.
-Definition run_timer_case (x : sx) : sx := L [N 0].
+
+Definition d_act (x : sx) : option (option (option tmodel * tevent)) :=
+  d_option (d_pair (d_option d_nat) d_nat) x.
+
+Definition d_ocb (x : sx) : option ocb :=
+  match x with
+  | L [N i; a; r] => do a' <- d_act a; do r' <- d_bool r; Some (mkOcb i a' r')
+  | _ => None
+  end.
+
+Definition d_tstate (x : sx) : option (tstate * (bool * tsdef)) :=
+  match x with
+  | L [N s; N t; g; ot; en; ex] =>
+      do g' <- d_bool g; do ot' <- d_list d_ocb ot; do en' <- d_list d_nat en; do ex' <- d_list d_nat ex;
+      Some (s, (g', mkTS t ot' en' ex'))
+  | _ => None
+  end.
+
+Definition d_ttrans (x : sx) : option ttrans :=
+  match x with
+  | L [N e; N s; d; ok] => do d' <- d_option d_nat d; do ok' <- d_bool ok; Some (mkTT e s d' ok')
+  | _ => None
+  end.
+
+Definition d_top (x : sx) : option top :=
+  match x with
+  | L [N 0; N m; N e] => Some (HEvent m e)
+  | L [N 1; N dt] => Some (HAdvance dt)
+  | _ => None
+  end.
+
+Definition e_tres (r : tres) : sx :=
+  match r with RFalse => N 0 | RTrue => N 1 | RMachine => N 2 | RAttribute => N 3 end.
+Definition d_tres (x : sx) : option tres :=
+  match x with
+  | N 0 => Some RFalse | N 1 => Some RTrue | N 2 => Some RMachine | N 3 => Some RAttribute | _ => None
+  end.
+
+Definition e_titem (i : titem) : sx :=
+  match i with
+  | TExited m s t => L [N 0; N m; N s; N t]
+  | TEntered m s t => L [N 1; N m; N s; N t]
+  | TFired m s t => L [N 2; N m; N s; N t]
+  | CExit cb m sn t => L [N 3; N cb; N m; N sn; N t]
+  | CEnter cb m sn t => L [N 4; N cb; N m; N sn; N t]
+  | CTimeout cb m sn t => L [N 5; N cb; N m; N sn; N t]
+  | COnExc cb m err t => L [N 6; N cb; N m; N err; N t]
+  | CEscape cb m t => L [N 7; N cb; N m; N t]
+  | CRes m e r t => L [N 8; N m; N e; e_tres r; N t]
+  | TUser m e t => L [N 9; N m; N e; N t]
+  end.
+
+Definition d_titem (x : sx) : option titem :=
+  match x with
+  | L [N 0; N m; N s; N t] => Some (TExited m s t)
+  | L [N 1; N m; N s; N t] => Some (TEntered m s t)
+  | L [N 2; N m; N s; N t] => Some (TFired m s t)
+  | L [N 3; N cb; N m; N sn; N t] => Some (CExit cb m sn t)
+  | L [N 4; N cb; N m; N sn; N t] => Some (CEnter cb m sn t)
+  | L [N 5; N cb; N m; N sn; N t] => Some (CTimeout cb m sn t)
+  | L [N 6; N cb; N m; N err; N t] => Some (COnExc cb m err t)
+  | L [N 7; N cb; N m; N t] => Some (CEscape cb m t)
+  | L [N 8; N m; N e; r; N t] => do r' <- d_tres r; Some (CRes m e r' t)
+  | L [N 9; N m; N e; N t] => Some (TUser m e t)
+  | _ => None
+  end.
+
+Definition e_tstep (nm : nat) (o : list titem * option tres * world) : sx :=
+  match o with
+  | (its, r, w) =>
+      L [e_list e_titem its; e_option e_tres r; L (map (fun m => N (w_st w m)) (seq 0 nm)); N (w_clock w)]
+  end.
+
+Definition states_cfg (sts : list (tstate * (bool * tsdef))) : list (tstate * tsdef) :=
+  map (fun p => (fst p, snd (snd p))) sts.
+
+Definition run_timer_case (x : sx) : sx :=
+  match x with
+  | L [N 0; asy; qd; sx_; tx; ign; oex; N nm; N s0; hx] =>
+      match d_bool asy, d_bool qd, d_list d_tstate sx_, d_list d_ttrans tx, d_bool ign, d_list d_nat oex,
+            d_list d_top hx with
+      | Some a, Some q, Some sts, Some ts, Some ig, Some oe, Some h =>
+          match build (map snd sts) with
+          | Some XAttribute => L [N 1; L [N 1; N 1]]
+          | None =>
+              let c := mkTC a q (states_cfg sts) ts ig oe in
+              let w0 := init_world s0 in
+              L [N 1; L [N 0; L (map (e_tstep nm) (run c w0 h));
+                         e_bool (spec_C17 c nm s0 (run_trace c w0 h) (w_clock (run_world c w0 h)))]]
+          end
+      | _, _, _, _, _, _, _ => L [N 0]
+      end
+  | L [N 1; sx_; N nm; N s0; ix; N clock] =>
+      match d_list d_tstate sx_, d_list d_titem ix with
+      | Some sts, Some its =>
+          let c := mkTC false false (states_cfg sts) [] false [] in
+          L [N 1; L [N 2; e_bool (spec_C17 c nm s0 its clock)]]
+      | _, _ => L [N 0]
+      end
+  | _ => L [N 0]
+  end.
